@@ -108,7 +108,7 @@ def run(ctx):
         # a search that stores MILLIONS of positions (seeded change r6C16: a cache bounded at 2^20 entries whose eviction order depends
         # on a randomly seeded std HashSet — only a search beyond that size differs, and only between runs): once in each of two
         # processes running at the same time
-        big = "2r2b2/5p2/5k2/p1r1pP2/P2pB3/1P3P2/K1P3R1/7R w - - 23 93 |  | d%dq" % (8 if ctx["tier"] == "quick" else 9)
+        big = "3br1k1/p1pn3p/1p3n2/5pNq/2P1p3/1PN3PP/P2Q1PB1/4R1K1 w - - 0 23 |  | d%dq" % (8 if ctx["tier"] == "quick" else 9)
         from concurrent.futures import ThreadPoolExecutor
         with ThreadPoolExecutor(max_workers=2) as ex:
             outs = list(ex.map(lambda _: C.driver(["search"], big + "\n", timeout=3000), range(2)))
